@@ -7,7 +7,7 @@ import common
 
 ERR_CLASS = [
     ("div0", re.compile(r"[Dd]ivision by zero|Zero division|Modulo by zero", re.I)),
-    ("bounds", re.compile(r"out of bounds|index out of", re.I)),
+    ("bounds", re.compile(r"out of bounds|index out of|Member array element not found", re.I)),
     ("range", re.compile(r"out of range|Type range error", re.I)),
     ("const", re.compile(r"const", re.I)),
     ("arity", re.compile(r"Argument count mismatch", re.I)),
